@@ -492,15 +492,16 @@ _TICK = os.sysconf("SC_CLK_TCK")
 
 
 def _cpu_s(pid):
+    """CPU seconds used by the process, or None when /proc cannot be read just now"""
     try:
         with open("/proc/%d/stat" % pid) as f:
             parts = f.read().rsplit(")", 1)[1].split()
         return (int(parts[11]) + int(parts[12])) / _TICK
     except (OSError, IndexError, ValueError):
-        return 0.0
+        return None
 
 
-def rpc_cpu(w, req, cpu_limit=CPU_LIMIT, wall_limit=60.0):
+def rpc_cpu(w, req, cpu_limit=CPU_LIMIT, wall_limit=900.0):
     """one request with a horizon measured in CPU time of the worker process (the machine is
     shared, so a wall-clock horizon short enough to make the many non-terminating histories
     affordable would misfire under load).  Raises pool.WorkerDied('hang'|'exit')."""
@@ -508,6 +509,11 @@ def rpc_cpu(w, req, cpu_limit=CPU_LIMIT, wall_limit=60.0):
     w.p.stdin.flush()
     fd = w.p.stdout.fileno()
     c0 = _cpu_s(w.p.pid)
+    for _ in range(50):
+        if c0 is not None:
+            break
+        time.sleep(0.01)
+        c0 = _cpu_s(w.p.pid)
     t0 = time.time()
     while b"\n" not in w.buf:
         r, _, _ = select.select([fd], [], [], 0.05)
@@ -517,7 +523,8 @@ def rpc_cpu(w, req, cpu_limit=CPU_LIMIT, wall_limit=60.0):
                 raise pool.WorkerDied("exit", w.p.wait())
             w.buf += chunk
             continue
-        if _cpu_s(w.p.pid) - c0 > cpu_limit or time.time() - t0 > wall_limit:
+        c1 = _cpu_s(w.p.pid)
+        if (c0 is not None and c1 is not None and c1 - c0 > cpu_limit) or time.time() - t0 > wall_limit:
             raise pool.WorkerDied("hang")
     line, w.buf = w.buf.split(b"\n", 1)
     return json.loads(line.decode("utf-8", "replace"))
@@ -539,15 +546,20 @@ def execute(w, shape, db0, hs):
         grpe.consult_checked(w, "\n".join(":- dynamic(%s/%d)." % (n, ar) for n in names) + "\n", persist=True)
         for n, items in zip(names, group):
             # one request per history; a hang is detected by a CPU-time horizon and costs one worker restart
-            # (pool.Worker.q would run the case a second time to attribute it, which is not needed here)
-            try:
-                r = rpc_cpu(w, {"op": "q", "cases": [command_for(shape, n, db0, items)]})
-                x = r["r"][0]
-                if "panic" in x:
-                    w._reapply_setup()
-            except pool.WorkerDied as d:
-                w.restart()
-                x = {"o": "", "hang": True} if d.how == "hang" else {"o": "", "crash": d.rc}
+            # (pool.Worker.q would run the case a second time to attribute it, which is not needed here).
+            # An abnormal ending is only reported if it happens again on the rebuilt (clean) machine.
+            x = None
+            for attempt in (0, 1):
+                try:
+                    r = rpc_cpu(w, {"op": "q", "cases": [command_for(shape, n, db0, items)]})
+                    x = r["r"][0]
+                    if "panic" in x:
+                        w._reapply_setup()
+                except pool.WorkerDied as d:
+                    w.restart()
+                    x = {"o": "", "hang": True} if d.how == "hang" else {"o": "", "crash": d.rc}
+                if not pool.abnormal_sig(x):
+                    break
             out.append(x)
     w.setup_consults = keep
     return out
